@@ -22,6 +22,9 @@ type MutantResult struct {
 
 // RunMutants applies each witness mutant of s in memory and re-runs the
 // property's obligations on the mutated program.
+// MutantKnownPath is the known-findings file applied while judging mutants.
+var MutantKnownPath string
+
 func RunMutants(s *Spec, repo string, load LoadFn, only string) []MutantResult {
 	var sel []Mutant
 	for _, m := range s.Mutants {
@@ -68,7 +71,8 @@ func runMutant(s *Spec, repo string, load LoadFn, m Mutant) (res MutantResult) {
 		res.Status, res.Detail = "load-error", err.Error()
 		return
 	}
-	run, _ := an.NewRun(s.ID, "mutant", prog, "")
+	// known findings of the unchanged tree do not count as a kill
+	run, _ := an.NewRun(s.ID, "mutant", prog, MutantKnownPath)
 	s.Run(run)
 	for _, o := range run.Obls {
 		if o.Status == "VIOLATED" {
